@@ -95,6 +95,31 @@ def r_conll_heads(repo, rep, R='R7.1'):
         else:
             L, Rr = ('sym', 'head-of', 'left_child'), ('sym', 'head-of', 'right_child')
             order_ok = st.data.get('order') == ['left_child', 'right_child']
+            HIL = A(N(p), 'head_is_left')
+            if (HIL, True) not in conds and (HIL, False) not in conds and any(x == HIL for t_ in [st.ret] + [y for a_b in sets for y in a_b] if t_ is not None for x in subterms(t_)):
+                # the head child chosen by position -- heads = (rec(left), rec(right)); i = 0 if node.head_is_left else 1;
+                # results[heads[1 - i]] = heads[i]; return heads[i] -- is read once for either value of the flag
+                def spec(t, val):
+                    if not isinstance(t, tuple) or not t:
+                        return t
+                    if t[0] == 'ifexp' and t[1] == HIL:
+                        return spec(t[2] if val else t[3], val)
+                    if t[0] == 'ifexp' and t[1] == ('unop', 'not', HIL):
+                        return spec(t[3] if val else t[2], val)
+                    t2 = tuple(spec(x, val) if isinstance(x, tuple) else x for x in t)
+                    if t2[0] == 'binop' and t2[1] in ('-', '+') and t2[2][0] == 'const' and t2[3][0] == 'const' and isinstance(t2[2][1], int) and isinstance(t2[3][1], int):
+                        return C(t2[2][1] - t2[3][1] if t2[1] == '-' else t2[2][1] + t2[3][1])
+                    if t2[0] == 'sub' and t2[1][0] in ('tuple', 'list') and t2[2][0] == 'const' and isinstance(t2[2][1], int) and -len(t2[1][1]) <= t2[2][1] < len(t2[1][1]):
+                        return t2[1][1][t2[2][1]]
+                    return t2
+                for val, key_, want_sets, want_ret in ((True, 'left', [(Rr, L)], L), (False, 'right', [(L, Rr)], Rr)):
+                    s2 = [(spec(a_, val), spec(b_, val)) for a_, b_ in sets]
+                    r2 = spec(st.ret, val) if st.ret is not None else None
+                    ok = s2 == want_sets and r2 == want_ret and order_ok
+                    got[key_] = ok
+                    rep.check(ok, R, w, 'resolve:%s-headed' % key_, '%s-headed node: the other child\'s head attaches to the head child\'s head, which is returned (head chosen by position)' % key_,
+                              '%s-headed case: stores %s, returns %s, visit order %s' % (key_, [(show(a), show(b)) for a, b in s2], show(r2) if r2 else None, st.data.get('order')))
+                continue
             if (A(N(p), 'head_is_left'), True) in conds:
                 ok = sets == [(Rr, L)] and st.ret == L and order_ok
                 got['left'] = ok
